@@ -104,7 +104,7 @@ def build_batches(chk, langs, rng):
     thorough = chk.tier == "thorough"
     corpus = collect_corpus(langs, thorough, 120_000 if not thorough else 400_000)
     hand = handwritten(langs)
-    n_mut_total = 1100 if not thorough else 46_000
+    n_mut_total = 2600 if not thorough else 46_000
     batch_size = 70 if not thorough else 110
     # originals
     originals = {l: corpus[l] + hand[l] for l in langs}
@@ -206,10 +206,15 @@ def run_batch(job):
     if not job.get("monitor", True):
         lianrun.run_lian(argv)                 # unwrapped, unmonitored: only the child's fate matters
         return {"unmonitored": True}
-    rec = gw.install(gw.Recorder(), contain=job.get("contain", True), repo=common.REPO)
+    rec = gw.install(gw.Recorder(), contain=job.get("contain", True), repo=common.REPO,
+                     keep_rows=(len(files) == 1))
     lianrun.run_lian(argv)
     w = lianrun.ws_dir(ws)
-    df = lianrun.read_bundles(w, "frontend", "gir")
+    read_error = None
+    try:
+        df = lianrun.read_bundles(w, "frontend", "gir")
+    except Exception as e:          # lian swallowed a failed feather write and left a truncated file behind
+        df, read_error = None, f"{type(e).__name__}: {e}"[:300]
     ms = lianrun.read_feather(w, "frontend", "module_symbols")
     unit_lang, unit_rel = {}, {}
     if ms is not None:
@@ -220,7 +225,8 @@ def run_batch(job):
                 unit_rel[u] = relpath_of(r.get("unit_path", ""))
     out = {"units": [], "violations": [], "stats": {}, "ops": {}, "body_cols": [], "derived": [], "tbs": {},
            "bundle": "absent", "hooks": (rec.wrapper_calls, rec.parse_gir_calls, rec.flatten_calls),
-           "n_bundles": 0}
+           "n_bundles": 0, "read_error": read_error,
+           "save_errors": [m for p_, m in rec.save_errors if "gir.bundle" in p_][:5]}
     lowered = 0
     for uid in rec.order:
         u = rec.units[uid]
@@ -254,7 +260,21 @@ def run_batch(job):
         if job.get("want_rows"):
             out["rows"] = lianrun.rows_as_dicts(df)
     elif lowered:
-        out["bundle"] = "missing-although-units-were-lowered"
+        out["bundle"] = "unreadable" if read_error else "missing-although-units-were-lowered"
+        if len(files) == 1:
+            # attribution only: the bundle of this single file is unreadable, so look at the rows lian handed to
+            # its loader (add_unit_gir has stamped unit_id on them) to name the construct behind the write failure
+            import pandas as pd
+            rows = [r for uid in rec.order for r in (rec.units[uid].rows or [])
+                    if not relpath_of(rec.units[uid].path).startswith("extern:")]
+            try:
+                V = gw.judge(pd.DataFrame(rows), rec, unit_lang)
+                out["in_memory_violations"] = [dict(v, rel=unit_rel.get(v["unit_id"], "?"),
+                                                    lang=unit_lang.get(v["unit_id"], "unknown"))
+                                               for v in V.violations[:50]]
+            except Exception as e:
+                out["in_memory_violations"] = []
+                out["in_memory_error"] = f"{type(e).__name__}: {e}"[:200]
     return out
 
 
@@ -326,21 +346,80 @@ class Driver:
             nxt = []
             for r in forkpool.run_jobs(run_batch, queue, timeout=self.timeout, tag=f"c03r{rounds}"):
                 job = r.item
+                if r.status == "ok" and r.value["bundle"] in ("unreadable", "missing-although-units-were-lowered"):
+                    # lian lowered units but left no readable bundle (a swallowed feather write failure):
+                    # nothing of this project can be judged as a whole; narrow down to the file(s) behind it
+                    chk.count("projects whose units were lowered but whose gir bundle is missing/unreadable")
+                    for m in r.value["save_errors"][:1]:
+                        col = re.search(r"column (\w+)", m)
+                        chk.count(f"swallowed gir bundle write failures on column "
+                                  f"'{col.group(1) if col else '?'}'")
+                    if len(job["files"]) > 1:
+                        self.split(job, nxt)
+                    else:
+                        self.single_file_unwritable(job, r.value)
+                    continue
                 if r.status == "ok":
                     self.absorb(job, r.value)
                     continue
+                if os.environ.get("C03_DEBUG"):
+                    print("DEBUG batch died:", r.status, len(job["files"]), job["langs"], str(r.value)[-1500:],
+                          r.log_text(600), flush=True)
                 if len(job["files"]) > 1:
                     chk.count(f"batches that ended with status '{r.status}' and were bisected")
-                    half = len(job["files"]) // 2
-                    for part in (job["files"][:half], job["files"][half:]):
-                        j = dict(job)
-                        j["files"] = part
-                        nxt.append(j)
+                    self.split(job, nxt)
                     continue
                 self.single_file_death(job, r)
             queue = nxt
         if queue:
             chk.note_inconclusive(f"{len(queue)} sub-batches still pending after 12 bisection rounds")
+
+    @staticmethod
+    def split(job, nxt):
+        files = job["files"]
+        langs = sorted({s.lang for _, s in files if isinstance(s, Src)})
+        if len(langs) > 1:
+            parts = [[f for f in files if isinstance(f[1], Src) and f[1].lang == l] for l in langs]
+            parts.append([f for f in files if not isinstance(f[1], Src)])
+        else:
+            half = len(files) // 2
+            parts = [files[:half], files[half:]]
+        for part in parts:
+            if part:
+                j = dict(job)
+                j["files"] = part
+                if len(langs) > 1:
+                    j["langs"] = [part[0][1].lang] if isinstance(part[0][1], Src) else job["langs"]
+                nxt.append(j)
+
+    def single_file_unwritable(self, job, v):
+        """One file alone makes lian's own feather write of the GIR bundle fail (mixed value types in a column)."""
+        rel, s = job["files"][0]
+        lang = s.lang if isinstance(s, Src) else job["langs"][0]
+        msg = (v["save_errors"] or [v.get("read_error") or "?"])[0]
+        col = re.search(r"column (\w+)", msg)
+        col = col.group(1) if col else "?"
+        self.chk.count("single files whose own gir bundle is unreadable (swallowed feather write failure)")
+        tail = (f" — and the GIR of this single file cannot be read back at all: lian's feather export fails "
+                f"({msg[:160]}), the failure is swallowed and a truncated gir.bundle0 is left behind")
+        # the construct behind it, named from the rows lian handed to its loader
+        explained = [x for x in v.get("in_memory_violations", [])
+                     if x["inv"] == "I5" and x["construct"].endswith("." + col)]
+        if explained:
+            for x in explained[:1]:
+                sig = f"{x['inv']}:{x['lang']}:{x['construct']}"
+                ent = self.struct.setdefault(sig, {"n": 0, "witnesses": []})
+                ent["n"] += 1
+                if len(ent["witnesses"]) < 6:
+                    ent["witnesses"].append((job, dict(x, detail=x["detail"] + tail, fixed_sig=sig)))
+            return
+        sig = f"unreadable:{lang}:column:{col}"
+        ent = self.struct.setdefault(sig, {"n": 0, "witnesses": []})
+        ent["n"] += 1
+        if len(ent["witnesses"]) < 6:
+            ent["witnesses"].append((job, {"rel": rel, "lang": lang, "inv": "unreadable", "construct": f"column:{col}",
+                                           "detail": "values of different types share one column" + tail,
+                                           "fixed_sig": sig}))
 
     def single_file_death(self, job, r):
         """A project of one file whose monitored run did not come back with a result."""
@@ -480,7 +559,7 @@ class Driver:
             for (job, viol) in ent["witnesses"][:2]:
                 rel = viol["rel"]
                 s = dict(job["files"]).get(rel)
-                if s is None or len(job["files"]) == 1:
+                if s is None or len(job["files"]) == 1 or viol.get("fixed_sig"):
                     continue
                 jobs.append({"id": -2, "langs": job["langs"], "files": [(rel, s)], "mock": job.get("mock", True),
                              "quiet": True, "sig": sig})
